@@ -58,6 +58,7 @@ func (s fbState) hasBuf(buf int) bool {
 type fbConfig struct {
 	EntryDirty  bool // the buffer lives across calls (a field): entry state is clean or dirty
 	ExitFlushed bool // a success exit must not leave unsent items
+	EntrySent   bool // some method can return with the buffer still shared with a receiver
 }
 
 type fbFinding struct {
@@ -73,6 +74,7 @@ type fbResult struct {
 	sends    int
 	findings []fbFinding
 	unknown  []string
+	exitSent bool // a success exit leaves the buffer in the sent state
 }
 
 // frameBuffers finds the slice expressions (identifier or field path) that are both appended to and
@@ -317,6 +319,9 @@ func checkFrameBuffer(p *Prog, fn *Fn, buf string, cfgc fbConfig) *fbResult {
 	if cfgc.EntryDirty {
 		entry |= fbBit(1, 2)
 	}
+	if cfgc.EntrySent {
+		entry |= fbBit(2, 2)
+	}
 	r := runFlow(p, fn, FlowSpec[fbState]{
 		Entry:    entry,
 		Transfer: transfer,
@@ -364,6 +369,11 @@ func checkFrameBuffer(p *Prog, fn *Fn, buf string, cfgc fbConfig) *fbResult {
 				res.unknown = append(res.unknown, p.Pos(pos))
 			}
 			s = transfer(n, s)
+		}
+	}
+	for _, ex := range r.Exits() {
+		if !ex.Panic && (ex.Ret == nil || fbSuccessReturn(info, ex.Ret)) && ex.State.hasBuf(2) {
+			res.exitSent = true
 		}
 	}
 	if cfgc.ExitFlushed {
